@@ -5,19 +5,22 @@ correspond(): (1) random operation sequences on real ss.Dist objects of every fa
               (2) whole-run monitoring of generated sims: every dist's observed op sequence is replayed
                   through the model; observed indices / states must equal the model's prediction and the
                   independent NumPy reference PCG64(seed).jumped(ind).
-search():     the property itself on the real code: no (generator state) is the start of two draws in a run,
+search():     the property itself on the real code: no (generator state) is the start of two consumptions (draws AND direct
+              uses of dist.rng, class Watch) over the whole life of a sim object, through every public entry point (DRIVERS),
+              with modules stepped twice per step (REPEATS) and user subclasses on the stream helpers (HELPERS);
               seeds pairwise distinct, guards refuse.
 """
 import hashlib, numpy as np
 from harness import impl
 
 PROP = 'C04'
-GENERATED = ['RngConsts', 'SeedFacts']
+GENERATED = ['RngConsts', 'SeedFacts', 'StreamSites']
 DRIVER = 'Drivers/C04.lean'
 DRIVER_MODULES = ['StarsimModel.Model.Rng', 'StarsimModel.Model.Proto']
 RULE = ('(1) random API-call sequences (init/jump/jump_dt/rvs/reset/direct rng use; strict x auto; every family of ss.dist_list; '
         'int, empty and uid-array requests) on real ss.Dist objects, compared call by call with the Lean model; '
-        '(2) complete per-distribution call histories recorded in generated sims, replayed through the model. '
+        '(2) complete per-distribution call histories recorded in generated sims, replayed through the model; '
+        '(3) the helper at every regenerated direct-use site (RandomNet.get_edges) called 2-5 times in a row after 0/1/3 steps vs helperCalls. '
         'distinct = distinct canonical op sequence; non-trivial = at least one draw and one jump')
 TRUSTED = ['NumPy: PCG64(seed).jumped(k) is a function of (seed,k); a non-empty draw advances the state; distinct (seed,k) give distinct states (checked on every observed state, not assumed)']
 ASSUMPTIONS = ['generator positions (ind, draws-since-jump) identify generator states: validated against PCG64(seed).jumped(ind) for every observed draw start']
@@ -302,6 +305,7 @@ def correspond(ctx):
             break
     ctx.notes['families_covered'] = fams
     correspond_check_seeds(ctx)
+    correspond_direct_sites(ctx, modulo)
     # (2) whole-run monitoring
     nsims = ctx.budget(6, 40)
     for k in range(nsims):
@@ -312,6 +316,61 @@ def correspond(ctx):
             ctx.broke('correspondence', 'C04.run', f'recording run raised {type(e).__name__}: {e}', data=cfg)
             continue
         check_run(ctx, cfg, rec, modulo)
+
+
+def correspond_direct_sites(ctx, modulo):
+    """ The helper found at the regenerated direct-use sites (`RandomNet.get_edges`), called several times in a row on a real,
+        initialised network, against the model's `helperCalls` expansion for the extracted follow-up code: after every call
+        the seed, the jump index and the generator state (vs PCG64(seed).jumped(ind) where the model says nothing was drawn
+        since the jump) must agree. """
+    import starsim as ss
+    facts = ctx.extracted.get('StreamSites', {}).get('facts') or {}
+    sites = facts.get('direct', [])
+    known = {'RandomNet.get_edges'}
+    for site in sites:
+        if site[1] not in known:
+            ctx.broke('correspondence', 'C04.direct-site', f'direct generator use at {site[0]}:{site[1]} (`{site[3]}`) has no correspondence test: add one', data=dict(site=site))
+    codes = {s_[1]: s_[2] for s_ in sites}
+    if 'RandomNet.get_edges' not in codes:
+        return
+    follow = {1: ['jump none 1 0'], 2: ['reset 0']}.get(codes['RandomNet.get_edges'], [])
+    for _ in range(ctx.budget(6, 30)):
+        seed = ctx.rng.randint(0, 10000); ncalls = ctx.rng.randint(2, 5); steps = ctx.rng.choice([0, 1, 3])
+        sim = ss.Sim(n_agents=40, dur=6, rand_seed=seed, networks=ss.RandomNet(n_contacts=2), diseases=ss.SIS(beta=0.1), verbose=0)
+        sim.init()
+        for _s in range(steps): sim.run_one_step()
+        net = sim.networks[0]; d = net.dist
+        lines = ['new 1 1', f'init {str2int_ref(d.trace, modulo)} {seed if seed else "none"} 1', f'jump {int(d.ind)} 1 1']
+        obs = [None, None, dict(seed=int(d.seed), ind=int(d.ind), state=d.state_int)]
+        inds = np.asarray(sim.people.auids)
+        for c in range(ncalls):
+            n = ctx.rng.randint(3, len(inds)); nc = np.full(n, 2, dtype=int)
+            net.get_edges(inds[:n], nc)
+            lines.append(f'direct {1000000 + 2 * n}'); obs.append(None)
+            for fl in follow:
+                lines.append(fl); obs.append(None)
+            obs[-1] = dict(seed=int(d.seed), ind=int(d.ind), state=d.state_int)
+        out = ctx.drive(DRIVER, lines)
+        ctx.case(('direct-site', seed, steps, tuple(lines)), True, sample=dict(kind='direct-site', lines=lines[:8]))
+        ctx.count('direct_site_cases')
+        for ln, o, ml in zip(lines, obs, out):
+            if ml == 'bad-op':
+                ctx.broke('correspondence', 'C04.direct-site', f'model rejected `{ln}`', data=dict(lines=lines)); return
+            if o is None: continue
+            m = parse_model_line(ml)
+            why = None
+            if str(o['seed']) != m['seed']: why = f"seed: impl={o['seed']} model={m['seed']}"
+            elif str(o['ind']) != m['ind']: why = f"ind: impl={o['ind']} model={m['ind']}"
+            else:
+                ind_s, draws = m['pos'].split(':')
+                if draws == '-' and ref_state(int(m['seed']), int(ind_s)) != o['state']:
+                    why = f"generator state differs from PCG64({m['seed']}).jumped({ind_s})"
+                if draws != '-' and ref_state(int(m['seed']), int(ind_s)) == o['state']:
+                    why = f"the model says numbers were drawn since the jump to {ind_s}, the generator is exactly at PCG64({m['seed']}).jumped({ind_s})"
+            if why:
+                ctx.broke('correspondence', 'C04.direct-site', f'RandomNet.get_edges called {ncalls}x after {steps} steps diverges from helperCalls (follow-up code {codes["RandomNet.get_edges"]}): {why} at `{ln}`',
+                          data=dict(lines=lines, seed=seed, steps=steps))
+                return
 
 
 def correspond_check_seeds(ctx):
@@ -522,6 +581,47 @@ def search(ctx):
         ctx.count('zoo_runs')
         for f in fails:
             ctx.fail(f['signature'], f'[zoo:{name}] ' + f['what'], dict(kind='sim', cfg=cfg))
+    # every public way of executing a simulation (sim.run, stepwise, copies, single_run / multi_run / MultiSim on fresh and on
+    # already initialised sims, first and later members of a batch), on configurations that have streams outside the stepped
+    # modules (people defaults drawn again for newborns, mixing pools) and on a generated one: always, every driver
+    lifecycle = zoo.configs(names=LIFECYCLE_ZOO)
+    for drv in sorted(DRIVERS):
+        gen = impl.gen_sim_config(ctx.rng, small=True, demographics=['births', 'deaths'], allow_global_readers=True)
+        picks = [ctx.rng.choice(lifecycle), ('generated', gen)] + (lifecycle if ctx.thorough else [])
+        for name, cfg in picks:
+            k = ctx.rng.choice([0, 1, 2, 5])
+            try:
+                fails = oracle_run(cfg, drv, k)
+            except Exception as e:
+                ctx.count('driver_exceptions'); ctx.notes['last_driver_exception'] = f'{name}/{drv}: {type(e).__name__}: {e}'; continue
+            ctx.count('driver_runs'); ctx.count('driver_' + drv)
+            for f in fails:
+                ctx.fail(f['signature'], f'[entry point {drv}, k={k}, {name}] ' + f['what'], dict(kind='sim', cfg=cfg, driver=drv, k=k))
+    # a user module that calls other modules' step() once more per step (repeated calls inside one timestep), for every
+    # kind of module, on a rotating part of the zoo (all of it in the thorough tier) and on generated configurations
+    allzoo = zoo.configs()
+    for rp in sorted(REPEATS):
+        picks = (allzoo if ctx.thorough else ctx.rng.sample(allzoo, 8)) + \
+                [('generated', impl.gen_sim_config(ctx.rng, small=True)) for _ in range(ctx.budget(2, 10))]
+        for name, cfg in picks:
+            try:
+                fails = oracle_run(cfg, 'plain', 0, rp)
+            except Exception as e:
+                ctx.count('repeat_exceptions'); ctx.notes['last_repeat_exception'] = f'{name}/{rp}: {type(e).__name__}: {e}'; continue
+            ctx.count('repeat_runs'); ctx.count('repeat_direct_uses', oracle_run.last_watch.n_direct)
+            for f in fails:
+                ctx.fail(f['signature'], f'[{rp} stepped twice per step, {name}] ' + f['what'], dict(kind='sim', cfg=cfg, driver='plain', k=0, repeat=rp))
+    # user subclasses built on the documented stream-consuming helpers (several calls per step)
+    for hname in sorted(HELPERS):
+        for dt in (1.0, 0.5):
+            try:
+                hseed = ctx.rng.randint(0, 1000)
+                fails = oracle_helper(hname, dt, hseed)
+            except Exception as e:
+                ctx.count('helper_exceptions'); ctx.notes['last_helper_exception'] = f'{hname}: {type(e).__name__}: {e}'; continue
+            ctx.count('helper_runs')
+            for f in fails:
+                ctx.fail(f['signature'], f'[{hname}] ' + f['what'], dict(kind='helper', name=hname, dt=dt, seed=hseed))
     for f in oracle_guards():
         ctx.fail(f['signature'], f['what'], dict(kind='guards'))
     # a distribution parameter replaced on an initialised simulation
@@ -590,36 +690,197 @@ def oracle_sequence(case, modulo):
     return None
 
 
-def oracle_run(cfg):
-    """ Run a sim recording state_int before every non-empty draw of every dist; report reuse """
-    import starsim as ss
-    D = ss.Dist
-    orig_rvs = D.rvs
-    seen = {}
-    fails = []
-    depth = [0]
-    directs = {}
+class Watch:
+    """ Whole-life monitor of EVERY consumption of a Dist's bit generator, re-deriving the property statement from the
+        observed states: `Dist.rvs` calls that return numbers, and uses of `dist.rng` made directly (detected as a change
+        of the complete generator state between two API calls of the same Dist object: rvs / jump / jump_dt / reset / init,
+        and at the end of the watch).  A *simulation* is what one `Sim.run()` call executes plus whatever happened to the
+        sim object (or the object it was copied from) before: states observed outside any `Sim.run()` are the common
+        prefix of every run that follows; states observed inside the i-th outermost `Sim.run()` belong to run i only
+        (two members of a batch are two simulations).  A violation is a consumption whose start state is already in the
+        prefix or in the same run.  States are compared by value (128-bit state, increment, buffered half), so a deep
+        copy of a sim continues the life of the original. """
+    API = ('rvs', 'jump', 'jump_dt', 'reset', 'init')
 
-    def w(self, n=1, reset=False):
-        pre = full_state(self)
-        out = orig_rvs(self, n, reset=reset)
-        if np.size(out) and self._size:
-            key = pre
-            if key in seen and len(fails) < 3:
-                fails.append(dict(signature=dict(oracle='state-reuse', dist=str(self.trace).split('_')[0]),
-                                  what=f'draw of `{self.trace}` at ti={getattr(getattr(self.module, "t", None), "ti", None)} starts from a generator state already used by `{seen[key]}`'))
-            seen[key] = self.trace
-        return out
-    D.rvs = w
-    try:
-        sim = impl.build_sim(cfg)
-        sim.init(); sim.run()
-    finally:
-        D.rvs = orig_rvs
-    seeds = [d.seed for d in sim.dists.dists.values()]
-    if len(set(seeds)) != len(seeds):
-        fails.append(dict(signature=dict(oracle='seed-repeat'), what='two distributions share a seed'))
+    def __init__(self, sig_dist=None, context=''):
+        self.prefix = {}; self.runs = {}; self.cur = None; self.nrun = 0
+        self.fails = []; self.last = {}; self.keep = {}; self.depth = 0
+        self.sig_dist = sig_dist; self.context = context; self.n_direct = 0; self.n_draws = 0
+
+    def scope(self):
+        return self.prefix if self.cur is None else self.runs.setdefault(self.cur, {})
+
+    def use(self, d, state, how):
+        if state is None: return
+        who = f'{d.trace or d.name} [{how}]'
+        ti = getattr(getattr(d.module, 't', None), 'ti', None) if getattr(d, 'module', None) is not None else None
+        prev = self.prefix.get(state) or (self.runs.get(self.cur, {}).get(state) if self.cur is not None else None)
+        if prev is not None and len(self.fails) < 3:
+            dist = self.sig_dist or str(d.trace or d.name).split('_')[0]
+            self.fails.append(dict(signature=dict(oracle='state-reuse', dist=dist),
+                                   what=f'{self.context}{how} of `{d.trace or d.name}` at ti={ti}'
+                                        f'{"" if self.cur is None else f" (run {self.cur} of the batch)"} starts from a generator state already used by `{prev}`'))
+        self.scope()[state] = who + (f' at ti={ti}' if self.cur is not None else ' before the run')
+
+    def direct_check(self, d):
+        """ the generator moved since the last API call on this object returned: it was used directly, starting there """
+        st = full_state(d); l = self.last.get(id(d))
+        if l is not None and st is not None and st != l:
+            self.n_direct += 1
+            self.use(d, l, 'direct use of dist.rng')
+
+    def __enter__(self):
+        import starsim as ss
+        D = ss.Dist; watch = self
+        self.orig = {k: getattr(D, k) for k in self.API}
+        self.orig_run = ss.Sim.run
+
+        def wrap(name):
+            f = self.orig[name]
+            def w(d, *a, **kw):
+                if watch.depth:
+                    return f(d, *a, **kw)
+                watch.keep[id(d)] = d
+                watch.direct_check(d)
+                pre = full_state(d)
+                watch.depth += 1
+                try:
+                    out = f(d, *a, **kw)
+                finally:
+                    watch.depth -= 1
+                    watch.last[id(d)] = full_state(d)
+                if name == 'rvs' and np.size(out) and d._size:
+                    watch.n_draws += 1
+                    watch.use(d, pre, 'draw')
+                return out
+            w.__name__ = name
+            return w
+        for k in self.API: setattr(D, k, wrap(k))
+
+        def run(sim, *a, **kw):
+            outer = watch.cur is None
+            if outer:
+                watch.cur = watch.nrun; watch.nrun += 1
+            try:
+                return watch.orig_run(sim, *a, **kw)
+            finally:
+                if outer:
+                    watch.sweep(); watch.cur = None
+        ss.Sim.run = run
+        return self
+
+    def sweep(self):
+        for i, d in list(self.keep.items()):
+            self.direct_check(d); self.last[i] = full_state(d)
+
+    def __exit__(self, *exc):
+        import starsim as ss
+        for k, f in self.orig.items(): setattr(ss.Dist, k, f)
+        ss.Sim.run = self.orig_run
+        try: self.sweep()
+        except Exception: pass
+        return False
+
+
+# Ways of executing a simulation (the public entry points of starsim/sim.py and starsim/run.py).  Each takes the built,
+# un-initialised sim and returns the list of sim objects that were run.
+def _drv_plain(ss, sim, k): sim.init(); sim.run(); return [sim]
+def _drv_run_only(ss, sim, k): sim.run(); return [sim]
+def _drv_until(ss, sim, k):
+    sim.init()
+    for _ in range(min(max(1, k), sim.t.npts - 1)): sim.run_one_step()
+    sim.run(); return [sim]
+def _drv_copy_after_init(ss, sim, k): sim.init(); s2 = sim.copy(); s2.run(); return [s2]
+def _drv_single_run_uninit(ss, sim, k): return [ss.single_run(sim, ind=k, shrink=False)]
+def _drv_init_single_run_first(ss, sim, k): sim.init(); return [ss.single_run(sim, ind=0, shrink=False)]
+def _drv_init_single_run_kth(ss, sim, k): sim.init(); return [ss.single_run(sim, ind=1 + k, shrink=False)]
+def _drv_init_single_run_noreseed(ss, sim, k): sim.init(); return [ss.single_run(sim, ind=k, reseed=False, shrink=False)]
+def _drv_multi_run_uninit(ss, sim, k): return ss.multi_run(sim, n_runs=2, parallel=False, shrink=False)
+def _drv_init_multi_run(ss, sim, k): sim.init(); return ss.multi_run(sim, n_runs=2, parallel=False, shrink=False)
+def _drv_init_multisim(ss, sim, k):
+    sim.init(); m = ss.MultiSim(sim); m.run(n_runs=2, parallel=False, shrink=False); return m.sims
+def _drv_multisim_list(ss, sim, k):
+    s2 = sim.copy(); s2.pars.rand_seed += 1 + k
+    m = ss.MultiSim(sims=[sim, s2]); m.run(parallel=False, shrink=False); return m.sims
+# (MultiSim.run(debug=True) is not an entry point today: it forwards n_runs to single_run, which rejects it)
+
+DRIVERS = {f[5:]: g for f, g in list(globals().items()) if f.startswith('_drv_')}
+
+
+def oracle_run(cfg, driver='plain', k=0, repeat=None):
+    """ Execute a configuration through one of the public entry points with every consumption of every Dist's generator
+        watched (draws and direct uses, from the construction of the sim to the end of the run); report reuse.
+        repeat: None, or the name of a REPEATS entry — a user module that calls other modules' public methods once more
+        per step. """
+    fails = []
+    extra = [REPEATS[repeat]()] if repeat else None
+    with Watch() as w:
+        sim = impl.build_sim(cfg, extra_interventions=extra) if extra else impl.build_sim(cfg)
+        import starsim as ss
+        sims = DRIVERS[driver](ss, sim, k)
+    fails += w.fails
+    for s in sims:
+        seeds = [d.seed for d in s.dists.dists.values()]
+        if len(set(seeds)) != len(seeds):
+            fails.append(dict(signature=dict(oracle='seed-repeat'), what='two distributions share a seed')); break
+    oracle_run.last_watch = w
     return fails
+
+
+def _repeat_intervention(label, pick):
+    """ A user intervention that, on every step, calls `step()` of the chosen modules once more — the property's
+        "repeated calls inside one timestep": every such call must start from states not used before. """
+    import starsim as ss
+    class Repeater(ss.Intervention):
+        def step(self):
+            for mod in pick(self.sim):
+                if mod is not self: mod.step()
+    return Repeater(name=f'repeat_{label}')
+
+LIFECYCLE_ZOO = ['births-deaths', 'pregnancy-deaths-maternal', 'age-mixing-pools', 'own-people', 'disk-births-deaths']
+
+
+def _helper_two_group_net(ss):
+    """ the use `RandomNet.get_edges`' docstring describes: contacts built group by group, one get_edges call per group """
+    class TwoGroupNet(ss.RandomNet):
+        def add_pairs(self):
+            uids = self.sim.people.auids
+            half = len(uids) // 2
+            p1s, p2s = [], []
+            for grp in (uids[:half], uids[half:]):
+                nc = np.full(len(grp), 2, dtype=int)
+                a, b = self.get_edges(np.asarray(grp), nc)
+                p1s.append(a); p2s.append(b)
+            p1 = np.concatenate(p1s); p2 = np.concatenate(p2s)
+            self.append(p1=p1, p2=p2, beta=np.ones(len(p1)), dur=np.zeros(len(p1)))
+    return dict(networks=TwoGroupNet())
+
+
+def _helper_extra_add_pairs(ss):
+    """ an intervention that asks every dynamic network for additional pairs in the middle of a step """
+    class MorePairs(ss.Intervention):
+        def step(self):
+            for net in self.sim.networks.values():
+                if hasattr(net, 'add_pairs'): net.add_pairs()
+    return dict(networks=[ss.RandomNet(n_contacts=2), ss.MFNet()], interventions=MorePairs())
+
+
+HELPERS = dict(two_group_randomnet=_helper_two_group_net, extra_add_pairs=_helper_extra_add_pairs)
+
+
+def oracle_helper(name, dt, seed):
+    import starsim as ss
+    with Watch() as w:
+        sim = ss.Sim(n_agents=60, dur=5 * dt, dt=dt, rand_seed=seed, diseases=ss.SIS(beta=0.1, init_prev=0.2), verbose=0, **HELPERS[name](ss))
+        sim.init(); sim.run()
+    return w.fails
+
+
+REPEATS = dict(
+    networks=lambda: _repeat_intervention('networks', lambda sim: list(sim.networks.values())),
+    demographics=lambda: _repeat_intervention('demographics', lambda sim: list(sim.demographics.values())),
+    diseases=lambda: _repeat_intervention('diseases', lambda sim: list(sim.diseases.values())),
+)
 
 
 SWAPS = dict(dict_type=lambda ss: dict(type='normal', loc=5.0, scale=1.0), fresh_dist=lambda ss: ss.normal(loc=5.0, scale=1.0),
@@ -790,7 +1051,9 @@ def oracle_guards():
 
 def replay(ctx, data):
     if data.get('kind') == 'sim':
-        return bool(oracle_run(data['cfg']))
+        return bool(oracle_run(data['cfg'], data.get('driver', 'plain'), data.get('k', 0), data.get('repeat')))
+    if data.get('kind') == 'helper':
+        return bool(oracle_helper(data['name'], data['dt'], data['seed']))
     if data.get('kind') == 'guards':
         return bool(oracle_guards())
     if data.get('kind') == 'heavy':
